@@ -1,6 +1,6 @@
 """C03  Gradients of the sum-product are the true derivatives."""
 from __future__ import annotations
-import math, warnings
+import itertools, math, warnings
 import numpy as np
 from hypothesis import strategies as st
 from .. import gen_fgg, gen_pattern as gp, oracle_fgg as of, admit, cmp
@@ -15,7 +15,7 @@ RULE = ("G1 specs (recursive and not; shared factors, factors unreachable from t
         "wrt finite log-weights over start cells with Z>0. non-trivial = reference gradient non-zero and spec has one of "
         "{cyclic SCC, shared factor, disconnected node, edge on an external node, patterned weight}; distinct by case hash")
 ASSUMPTIONS = ["only specs with finite Z and rho_inf(J(x*)) <= 0.9 are judged (gradient finite and well conditioned); others counted in 'skipped'",
-               "tolerance |g-g_ref| <= 1e-6*|g_ref| + 1e-8*(1+max|g_ref|)",
+               "tolerance |g-g_ref| <= 1e-6*|g_ref| + 1e-8*(1+max|g_ref|) + 4*|g(x*)-g(x*-4B)| (B = derived fixed-point bound at tol 1e-12; last term = the oracle's first-order sensitivity of the gradient to the fixed point)",
                "Log semiring: entries with log-weight -inf and start cells with Z=0 are excluded, as the statement says",
                "patterned weights: gradient is compared on the physically backed entries (weights.grad marks the rest with nan)"]
 ESSENTIAL_LABELS = ['dead-rule-first', 'recursive', 'shared-factor', 'unreachable-factor', 'patterned-weight', 'edge-on-external', 'kind:log', 'style:requires_grad_']
@@ -96,9 +96,13 @@ def check(case, ctx):
               'edge-on-external' if edge_on_ext else None)
     names = list(spec['terminals'])
     refs = {}
+    sens = {}
 
     def reference(kind):
         if kind in refs: return refs[kind]
+        scale_all = max([float(v.abs().max()) for v in fp['x'].values() if v.numel()] + [0.0])
+        Bk = (1e-12 / (1 - fp['rho_inf'])) if kind == 'real' else scale_all * math.expm1(1e-12) / (1 - fp['rho_inf'])
+        sens[kind] = admit.gradient_sensitivity(fp, start, cot, names, 4 * Bk + 1e-13 * scale_all, log_domain=(kind == 'log'))
         if kind == 'real':
             g = te.gradients(fp['vec'], fp['J'], cot, start, names)
             refs[kind] = ({n: v.numpy() for n, v in g.items()}, None)
@@ -217,7 +221,13 @@ def check(case, ctx):
                 sel &= (wts > 0)               # finite log-weights only
             scale = float(np.max(np.abs(want_cmp[sel]))) if sel.any() else 0.0
             err = np.abs(gd[sel] - want_cmp[sel])
-            ok = bool(np.all(err <= 1e-6 * np.abs(want_cmp[sel]) + 1e-8 * (1 + scale)))
+            allow = sens[kind][n]
+            if t.get('pattern') and backed == 'phys':
+                ap = np.zeros(t['pattern']['paxes'])
+                for idx in itertools.product(*[range(x) for x in t['pattern']['paxes']]):
+                    ap[idx] = allow[tuple(gp.pat_index(P, idx, t['pattern']['paxes']) for P in t['pattern']['vaxes'])]
+                allow = ap
+            ok = bool(np.all(err <= 1e-6 * np.abs(want_cmp[sel]) + 1e-8 * (1 + scale) + 4 * allow[sel]))
             ctx.require(ok, 'wrong-gradient', f'[{cfg}] d/d{n}: got {gd.tolist()} expected {want_cmp.tolist()} (Z*={xstar.tolist()}, cot={cot.tolist()})',
                         config=cfg, sr=kind, method=method, factor=n)
             if sel.any() and np.any(want_cmp[sel] != 0):
